@@ -26,6 +26,8 @@ BODIES = {
     4: "class K:\n    def f(self):\n        return 1\nv = K()\n",
     5: "from q import b\nz = b.v\n",
     6: "from a import *\nx = K\ny = v\n",
+    7: "def broken(:\n    pass\n",
+    8: "from b import *\ny = v\n",
 }
 
 INVARIANTS = ["FilesCoherent", "SourceCoherent", "InferNoStalePositive", "ImportsCoherent", "CachedIsWatched"]
@@ -226,13 +228,16 @@ def run_behaviour(beh):
                 project.get_files()
             elif act == "module":
                 res = project.get_resource(rpath(l["p"]))
-                pm = project.get_pymodule(res)
-                for name, pyname in pm.get_attributes().items():
-                    obj = pyname.get_object()
-                    try:
-                        obj.get_attributes()
-                    except Exception:
-                        pass
+                try:
+                    pm = project.get_pymodule(res)
+                    for name, pyname in pm.get_attributes().items():
+                        obj = pyname.get_object()
+                        try:
+                            obj.get_attributes()
+                        except Exception:
+                            pass
+                except Exception:
+                    pass    # e.g. a module with a syntax error: a query may fail, later answers must still be right
         # the spec's tree must be the disk (binds the model of the fs)
         snap = common.snapshot(root)
         disk = sorted([rel.replace(os.sep, "/"), None if data is None else data.decode()] for rel, data in snap.items())
